@@ -4,7 +4,7 @@ ID=$1; shift; NOTE="$*"
 OUT=/tmp/seed_out/$ID; DST=/verif/seeded/$ID; mkdir -p $DST
 cd /repo || exit 2
 git apply "$OUT/patch.diff" 2>/dev/null || git apply -3 "$OUT/patch.diff" || exit 2
-git diff -- src/ > $DST/patch.diff
+git diff HEAD -- src/ > $DST/patch.diff
 git reset -q; git checkout -- .
 cp $OUT/seed_demo.rs $DST/seed_demo.rs
 python3 - "$ID" "$NOTE" <<'PY'
